@@ -574,6 +574,12 @@ def _iter(it):
             n, e = _iter(it[2][0])
             _FILTERS.append((_apply(it[2][1], e), True))
             return n, e
+        if it[1] == "Iterator::filter_map" and len(it[2]) == 2 and _FILTERS is not None:
+            # the elements for which f answers Some(y), as y
+            n, e = _iter(it[2][0])
+            fy = _app(it[2][1], e)
+            _FILTERS.append((("call", "Option::is_some", (fy,)), True))
+            return n, ("proj", fy, (("Option::Some", "0"),))
         if it[1] == "Iterator::enumerate" and len(it[2]) == 1:
             n, e = _iter(it[2][0])
             return n, ("list", (("idx", it[2][0]), e))
